@@ -19,10 +19,10 @@ import (
 
 // ProcShape is one process tree shape a task script can create without leaving its process group
 type ProcShape struct {
-	Name   string
-	Lines  []string // script lines; MARK is replaced by the marker assignment
-	Leaves int      // number of long-living processes expected to carry the marker
-	AllowFailure bool // the task is marked allow_failure
+	Name         string
+	Lines        []string // script lines; MARK is replaced by the marker assignment
+	Leaves       int      // number of long-living processes expected to carry the marker
+	AllowFailure bool     // the task is marked allow_failure
 	// DetachedIgnorer: the shape contains a process that ignores SIGINT and does not hold the task's output pipe while the
 	// process the runner waits for ends on SIGINT: it outlives the report until the kill timeout (known finding D9)
 	DetachedIgnorer bool
